@@ -1,4 +1,5 @@
 //! Native reproducer for finding F-wcfi-4 (batch wcfi, property C14 "entries are padded to the address size"):
+//! STATUS: FIXED in /repo a12b998 (initial_length_size() in both write_nop calls); exits 0 from that commit on.
 //! DWARF 5 section 6.4.1 (CIE field 1 and FDE field 1): "The size of the length field plus the value of length must be an
 //! integral multiple of the address size."  `CommonInformationEntry::write` / `FrameDescriptionEntry::write` pad with
 //!     write_nop(w, encoding.format.word_size() as usize + w.len() - length_base, encoding.address_size)
